@@ -467,6 +467,37 @@ func (g *genState) genCase(id string) {
 	g.inits = map[string]bool{}
 	wantIters := g.weight(30, "C07 C08 C01 C02", 3)
 	wantInit := g.weight(6, "C19", 10)
+	if r.Chance(g.weight(5, "C19 C06", 5)) {
+		// a waiter holds the initialization channel while one initializer is pending; ONE transaction marks it done
+		// and registers another (the table is not initialized at its commit: the channel stays open); when the
+		// second one is marked done the table is initialized and the waiter's channel must be closed
+		tb := r.Intn(2)
+		g.locked = map[int]bool{tb: true}
+		step := func(ops ...string) {
+			g.emit("begin %d", tb)
+			g.sh.begin(g.locked)
+			for _, o := range ops {
+				g.emit("%s", o)
+			}
+			g.emit("commit %d", g.nextSnap)
+			g.sh.commit()
+			g.snaps = append(g.snaps, g.nextSnap)
+			g.nextSnap++
+		}
+		step(fmt.Sprintf("reginit %d 7", tb))
+		waiter := g.snaps[len(g.snaps)-1]
+		g.emit("q s%d %d init", waiter, tb)
+		if r.Chance(50) {
+			step(fmt.Sprintf("initdone %d 7", tb), fmt.Sprintf("reginit %d 8", tb))
+		} else {
+			step(fmt.Sprintf("initdone %d 7", tb), fmt.Sprintf("q txn %d init", tb), fmt.Sprintf("reginit %d 8", tb), fmt.Sprintf("reginit %d 9", tb), fmt.Sprintf("initdone %d 9", tb))
+		}
+		g.emit("q s%d %d init", waiter, tb)
+		g.emit("q fresh %d init", tb)
+		step(fmt.Sprintf("initdone %d 8", tb))
+		g.emit("q s%d %d init", waiter, tb)
+		g.emit("q fresh %d init", tb)
+	}
 	if r.Chance(g.weight(12, "C07 C08", 3)) {
 		// change iterators created on never-written tables (revision 0), kept behind the others
 		g.emit("begin 0,1")
